@@ -466,6 +466,8 @@ func checkC13(p *Prog, r *Result, tier string) {
 	r.Rule("C13.R6", "the iterator makes progress: in next(), every path from the read of the current element to a return steps the cursor, also when the read failed (callers such as the bulk delete continue after a read error and rely on reaching the end)", 1)
 	r.Rule("C13.R7", "the sorted slice of a field index stays sorted by construction: it is written only (a) in a function that computes the position with the bisection, (b) by compaction (append of two sub-slices of itself), (c) by replacing it with an empty slice, or (d) by the decoder, whose result the index control checks for order", 3)
 	checkSortedSliceWriters(p, r, "C13.R7")
+	r.Rule("C13.R8", "the '!=' result keeps the index order: the range function of the '!=' operator places the part of the index in front of the equal range (greater values, a slice of the index from its start) before the part behind it (a slice of the index up to its end)", 1)
+	checkNotEqualOrder(p, r, "C13.R8")
 	r.Rule("C13.R3", "Limit pairing: in the collecting loop every append to the output is paired with exactly one limit decrement in the same block, and the loop guard tests limit > 0 before each append", 2)
 	r.Rule("C13.R4", "One: sets the limit to the constant 1 before collecting, returns element 0, and reports ErrNoObjectFound on an empty result", 3)
 	r.Rule("C13.R5", "AssignIndex identity mapping: the target slice is made with len(index) elements and every element i of the target is set from element i of the index (same induction variable)", 2)
@@ -1150,5 +1152,111 @@ func checkSortedSliceWriters(p *Prog, r *Result, rule string) {
 				}
 			}
 		}
+	}
+}
+
+// operatorArms: operator literal -> field-index range function called by the indexed search dispatch.
+func operatorArms(p *Prog) map[string]*ssa.Function {
+	a := p.A
+	out := map[string]*ssa.Function{}
+	idx := p.FuncByName(a.ObjIndex.Obj().Name() + ".search")
+	if idx == nil {
+		return out
+	}
+	owner, _ := switchOwner(idx, 2)
+	if owner == nil {
+		return out
+	}
+	for _, b := range owner.Blocks {
+		ifi, ok := b.Instrs[len(b.Instrs)-1].(*ssa.If)
+		if !ok {
+			continue
+		}
+		bo, ok := ifi.Cond.(*ssa.BinOp)
+		if !ok || bo.Op != token.EQL {
+			continue
+		}
+		lit, ok := constString(bo.Y)
+		if !ok {
+			continue
+		}
+		for _, in := range b.Succs[0].Instrs {
+			if call, ok := in.(*ssa.Call); ok {
+				if f := call.Call.StaticCallee(); f != nil && f.Signature.Recv() != nil && named(f.Signature.Recv().Type()) == a.FieldIndex {
+					out[lit] = f
+				}
+			}
+		}
+	}
+	return out
+}
+
+// checkNotEqualOrder: head segment (index[:i]) is placed before the tail segment (index[j:]).
+func checkNotEqualOrder(p *Prog, r *Result, rule string) {
+	a := p.A
+	f := operatorArms(p)["!="]
+	if f == nil {
+		r.Report(rule, "-", "range function of '!='", Undecided, "the indexed dispatch has no arm for '!='", "", nil, false)
+		return
+	}
+	kindOf := func(v ssa.Value) string {
+		sl, ok := v.(*ssa.Slice)
+		if !ok {
+			return ""
+		}
+		if _, fld, _ := loadedField(sl.X); fld != a.FIIndex {
+			return ""
+		}
+		lowZero := sl.Low == nil
+		if c, ok := sl.Low.(*ssa.Const); ok && c.Value != nil && c.Value.String() == "0" {
+			lowZero = true
+		}
+		switch {
+		case lowZero && sl.High != nil:
+			return "head"
+		case !lowZero && sl.High == nil:
+			return "tail"
+		}
+		return ""
+	}
+	type use struct {
+		kind string
+		at   ssa.Instruction
+		pos  int
+	}
+	var uses []use
+	n := 0
+	for _, b := range f.Blocks {
+		for _, in := range b.Instrs {
+			n++
+			call, ok := in.(*ssa.Call)
+			if !ok {
+				continue
+			}
+			bi, ok := call.Call.Value.(*ssa.Builtin)
+			if !ok || (bi.Name() != "copy" && bi.Name() != "append") || len(call.Call.Args) < 2 {
+				continue
+			}
+			if k := kindOf(call.Call.Args[1]); k != "" {
+				uses = append(uses, use{k, in, n})
+			}
+		}
+	}
+	var head, tail *use
+	for i := range uses {
+		if uses[i].kind == "head" && head == nil {
+			head = &uses[i]
+		}
+		if uses[i].kind == "tail" && tail == nil {
+			tail = &uses[i]
+		}
+	}
+	switch {
+	case head == nil || tail == nil:
+		r.Report(rule, FuncName(f), "head segment placed before tail segment", Undecided, "the '!=' range function does not build its result from a slice of the index from its start and a slice up to its end (copy/append): its result order cannot be decided by this rule", p.Pos(f.Pos()), nil, true)
+	case head.at.Block() == tail.at.Block() && head.pos < tail.pos, head.at.Block() != tail.at.Block() && head.at.Block().Dominates(tail.at.Block()):
+		r.Report(rule, FuncName(f), "head segment placed before tail segment", Discharged, "", p.Pos(head.at.Pos()), nil, true)
+	default:
+		r.Report(rule, FuncName(f), "head segment placed before tail segment", Violated, "the '!=' range function appends the entries behind the equal range (smaller values) before the ones in front of it (greater values): the matches are right but their order is not the index order, so Collect / Reverse / Limit / One on a search ending with '!=' return the wrong order or the wrong elements", p.Pos(tail.at.Pos()), nil, true)
 	}
 }
